@@ -297,10 +297,32 @@ Fixpoint map_res' {A B} (f : A -> res B) (l : list A) : res (list B) :=
   | x :: l' => do y <- f x; do ys <- map_res' f l'; Ok (y :: ys)
   end.
 
+(* collapse_posts::totals_map is ordered by the accounts' full names (filters.h,
+   compare_account_names: std::string operator<): the rows of a transaction come in that order *)
+Fixpoint ins_row (kv : path * value) (l : list (path * value)) : list (path * value) :=
+  match l with
+  | [] => [kv]
+  | x :: l' => match str_compare (fullname (fst kv)) (fullname (fst x)) with
+               | Gt => x :: ins_row kv l'
+               | _ => kv :: l
+               end
+  end.
+
+Fixpoint sort_rows (l : list (path * value)) : list (path * value) :=
+  match l with
+  | [] => []
+  | x :: l' => ins_row x (sort_rows l')
+  end.
+
 (* per transaction: the collapsed (account, value) pairs *)
 Definition collapsed (ord : bool) (n : Z) (o : opts) (ps : list posting)
   : res (list (list (path * value))) :=
   map_res' (fun g => collapse_xact ord n o g []) (group_xacts (selected o ps) [] (-1)).
+
+(* ... in the order in which report_subtotal hands them on *)
+Definition collapsed_rows (ord : bool) (n : Z) (o : opts) (ps : list posting)
+  : res (list (list (path * value))) :=
+  do gs <- collapsed ord n o ps; Ok (map sort_rows gs).
 
 (* ------------------------------------------------------------- the account tree *)
 
